@@ -34,7 +34,7 @@ def recipes(kind):
                            ["set_node_metadata", 1, {"k": "M"}]]),
         "d-u": (False, U4, [["add_edge", [[0], [1]], None, None], ["add_edge", [[1], [0]], None, {"k": "M"}],
                             ["add_edge", [[0, 1], [2, 3]], None, {"j": "M"}], ["set_node_metadata", 0, {"k": "M"}],
-                            ["add_node", 9, None]]),
+                            ]),
     }
 
 
